@@ -19,6 +19,15 @@ existing engines, each followed IN THE SAME SCRIPT by a liveness probe:
   app              the real parser and its Display paths at every decode level on the same hostile fragments.
   master           the real master task: hostile responses while a read / command task is outstanding, then a
                    fresh read whose good response must complete it.
+  accept           REAL TCP (implementation only, no Coq model; binary /verif/pairtest built and run with the helpers
+                   of c02.py, public dnp3 API only): the CONNECTION-ACCEPTING code.  A master in TCP SERVER mode (link
+                   identification with LinkIdConfig::max_tasks 1 / 2 / 16 and a short timeout, or plain accept) or an
+                   outstation TCP server; hostile peers connect and send nothing / fewer than 10 octets / garbage / a valid
+                   header and part of a frame, close at once (FIN or RST) or stay silent up to and past the link-id
+                   timeout - below, at and ABOVE the number of identification slots - and interleaved well-formed peers
+                   (`good`) must be SERVED: the master answers the identifying RESET_LINK_STATES with an ACK and sends the
+                   association's first request; the outstation answers READ class 0 with the sequence number.  Clause
+                   `accept-wedged`: every `good` op is `served`.
 
 Essential oracle: no `panic` / `harness-died` / `missing` observation, the probe is answered.  A task
 that spins under the paused clock never lets the harness settle: the shard then runs into the
@@ -28,8 +37,10 @@ side is a mismatch); scripts containing an op the model does not implement are m
 
 The harness is a debug build: arithmetic overflow checks are ON, which is the stricter setting (a
 release build wraps silently where this one panics); no separate release-profile run is made."""
-import hashlib, os, struct, subprocess
+import hashlib, os, shutil, struct, subprocess, threading
+import propcheck
 from propcheck import *
+import c02          # build / run helpers of the pairtest binary (engine accept); installs its own run_cases dispatcher first
 import dnp
 import dnp_objects as D
 import ost
@@ -365,6 +376,72 @@ def hostile_response(rng, seq, maxlen, func=None):
 
 
 # ------------------------------------------------------------------------------------------------
+# engine `accept`: the scripts run on /verif/pairtest (another binary than dnp3's test build).  The build / shard /
+# run helpers are those of c02.py (imported, not copied; importing c02 also installs its run_cases dispatcher, which
+# passes every other property through); C01's own dispatcher sends the accept scripts there and everything else
+# down the normal path.
+
+def accept_engine(case):
+    return case.script.split("\n", 1)[0].split()[2:3] == ["accept"]
+
+
+def _c01_run_cases(prop, cases, tag):
+    if getattr(prop, "id", None) != "C01":
+        return _prev_run_cases(prop, cases, tag)
+    acc = [c for c in cases if accept_engine(c)]
+    rest = [c for c in cases if not accept_engine(c)]
+    impl, model, extra = {}, {}, None
+    builder, built = None, {}
+    if acc and rest:
+        # the release build of pairtest (half a minute after a change of /repo) overlaps the other families' run;
+        # the accept scripts themselves run afterwards, on a quiet machine (they are the only ones on real time)
+        def build():
+            try:
+                c02.build_pairtest()
+            except BaseException as e:
+                built["error"] = e
+        builder = threading.Thread(target=build)
+        builder.start()
+    try:
+        if rest:
+            res = _prev_run_cases(prop, rest, tag)
+            impl, model = dict(res[0]), dict(res[1])
+            extra = res[2] if len(res) > 2 else None
+    finally:
+        if builder:
+            builder.join()
+    if "error" in built:
+        raise built["error"]
+    if acc:
+        for c in acc:
+            c.meta["impl_only"] = True           # also for a replayed script whose meta was lost
+            c.meta.setdefault("engine", "accept")
+        work = os.path.join(WORK, prop.id, "accept_p%d" % os.getpid())
+        try:
+            got = c02.run_pair_shards([c.script for c in acc], work, tag)
+            built_from = c02._built_from
+            note = None
+            if c02.repo_fingerprint() != built_from:
+                # the source tree was edited while the scripts ran (see c02.repo_fingerprint): build again, run once more
+                note = "%s -> %s (accept scripts repeated)" % (built_from, c02.repo_fingerprint())
+                c02._pair_bin = None
+                got = c02.run_pair_shards([c.script for c in acc], work, tag + "_again")
+                built_from = c02._built_from
+        finally:
+            shutil.rmtree(work, ignore_errors=True)
+        impl.update(got)
+        for c in acc:
+            model[c.sid] = ["no model: engine accept is implementation only"]
+        prop.accept_coverage = prop.accept_totals(acc, got)
+        prop.accept_coverage["pairtest_built_from"] = built_from
+        if note:
+            prop.accept_coverage["tree_changed_during_run"] = note
+    return impl, model, extra
+
+
+_prev_run_cases = propcheck.run_cases
+propcheck.run_cases = _c01_run_cases
+
 
 class C01(ost.OutstationProp):
     id = "C01"
@@ -376,17 +453,26 @@ class C01(ost.OutstationProp):
                 "tools/gen/panic_ledger.json; three sites OPEN = known finding) and the fuel / guard lemmas of the "
                 "modelled layers; absence of panics and stalls in the real code and liveness afterwards are decided by "
                 "the hostile correspondence runs only (debug build, overflow checks on).  Not modelled: allocation "
-                "failure, stack depth, the tokio runtime, sockets/TLS/serial, panics outside the 21 files")
+                "failure, stack depth, the tokio runtime, sockets/TLS/serial, panics outside the 21 files; the TCP servers' "
+                "accept loops (dnp3/src/tcp/master/server.rs, tcp/outstation/server.rs) have NO model: they are sampled on "
+                "loopback TCP by the family `accept` (direct oracle only)")
     rule = ("hostile scripts for the engines link, treader (both roles, close and discard, streams cut into reads by the "
             "model), outstation (decode 0..3, tx 249..2048, rx 249..4096, idle / solicited / unsolicited confirm wait, "
             "event overflow while waiting), app (parse + Display at every level) and master (task outstanding); every "
             "script ends with a liveness probe (frames still delivered / clean err; READ answered with its sequence "
-            "number; fresh read task completes).  Non-trivial = the implementation produced an observation beyond `end`; "
-            "distinct = distinct (config, trace)")
+            "number; fresh read task completes).  Family accept (real loopback TCP, /verif/pairtest, implementation only): "
+            "master TCP server with link identification (max_tasks 1, 2, 16; identification failures below, at, above and "
+            "at twice the slots; timeout 150..300 ms) or plain accept, and outstation TCP server; hostile peers (nothing, "
+            "1..9 octets, garbage, header + part of a frame, silent before / past the timeout, FIN or RST) interleaved with "
+            "well-formed peers that must be served (ACK + first request / READ class 0 answered with its sequence number).  "
+            "Non-trivial = the implementation produced an observation beyond `end` (accept: a good peer served after a "
+            "hostile one); distinct = distinct (config, trace)")
 
     # ---- dispatch per engine (as c07.py does) ------------------------------------------------------------
     def model_script(self, case, impl):
         eng = case.meta.get("engine")
+        if accept_engine(case):
+            return case.script.split("\n", 1)[0] + "\nE"
         if case.meta.get("impl_only"):
             return case.script.split("\n", 1)[0] + "\nE"
         if eng == "outstation":
@@ -404,6 +490,10 @@ class C01(ost.OutstationProp):
         return lines
 
     def nontrivial(self, case, impl):
+        if accept_engine(case):
+            # a well-formed peer served after a hostile one
+            bad = next((i for i, l in enumerate(impl) if l.startswith("bad ") and " sent " in l), None)
+            return bad is not None and any(l.startswith("good served") for l in impl[bad:])
         return len([l for l in impl if l != "end" and not l.endswith(" end")]) > 0
 
     def finding_signature(self, case, clause, desc):
@@ -824,6 +914,225 @@ class C01(ost.OutstationProp):
                               % (" ".join(res[0]) if res else "no result")))
         return fails
 
+    # ---- (v) acceptance liveness of the real TCP servers (engine accept, /verif/pairtest) -----------------------
+    ACC_MASTER, ACC_OUT = 1, 1024
+    # bad-peer kinds after which the master's link identification FAILS (fewer than 10 octets ever arrive)
+    ACC_ID_FAILING = ("none", "short", "hdr9", "silent", "short-silent")
+
+    def accept_good_op(self, role, seq, limit):
+        """(op, what the oracle needs) of a well-formed peer"""
+        if role == "outstation":
+            req = dnp.link_frame(0xC4, self.ACC_OUT, self.ACC_MASTER,
+                                 bytes([dnp.tp_header(True, True, seq), 0xC0 | (seq & 15), 0x01, 0x3C, 0x01, 0x06]))
+            return ("good", hexs(req), 1, limit)
+        # an outstation that opens the connection: RESET_LINK_STATES (PRM, function 0) identifies it; the master's link
+        # layer acknowledges it and the association sends its first request (start-up integrity poll)
+        return ("good", hexs(dnp.link_frame(0x40, self.ACC_MASTER, self.ACC_OUT)), 2, limit)
+
+    def accept_bad_op(self, rng, role, kind, idto):
+        me, peer = (self.ACC_MASTER, self.ACC_OUT) if role == "master" else (self.ACC_OUT, self.ACC_MASTER)
+        ctrl = 0x44 if role == "master" else 0xC4             # unconfirmed user data towards the endpoint under test
+        hdr = dnp.link_frame(ctrl, me, peer, fbytes(rng, rng.choice([1, 16, 17, 60, 250])))
+        close = rng.choice(["fin", "fin", "rst"])
+        # silent peers: gone before the identification timeout (the server sees EOF), just past it, long past it
+        hold = rng.choice([max(20, idto // 2), idto + 150, idto + 150, 3 * idto])
+        if kind == "none":
+            return ("bad", kind, "-", 0, close)
+        if kind == "short":
+            k = rng.range(1, 9)
+            b = hdr[:k] if rng.chance(1, 2) else rng.bytes(k)
+            return ("bad", kind, hexs(b), 0, close)
+        if kind == "hdr9":
+            return ("bad", kind, hexs(hdr[:9]), 0, close)
+        if kind == "silent":
+            return ("bad", kind, "-", hold, close)
+        if kind == "short-silent":
+            return ("bad", kind, hexs(hdr[:rng.range(1, 9)]), hold, close)
+        if kind == "garbage":
+            n = rng.choice([10, 11, 30, 292, 1000])
+            return ("bad", kind, hexs(fbytes(rng, n)), rng.choice([0, 0, 30]), close)
+        if kind == "header":
+            return ("bad", kind, hexs(hdr[:10]), rng.choice([0, 0, hold]), close)
+        if kind == "midframe":
+            return ("bad", kind, hexs(hdr[:rng.range(11, max(11, len(hdr) - 1))]), rng.choice([0, 0, 30]), close)
+        if kind == "req-noread":
+            # a well-formed request whose sender is gone before the answer can be written
+            return ("bad", kind, self.accept_good_op(role, rng.below(16), 0)[1], 0, "rst")
+        raise ValueError(kind)
+
+    def accept_script(self, rng, sid, role, linkid, mt, id_failures, relation):
+        idto = rng.choice([150, 200, 300])
+        cfg = {"role": role, "linkid": linkid, "maxtasks": mt, "idto": idto, "discard": rng.below(2), "workers": rng.choice([2, 4])}
+        counted = role == "master" and linkid == 1
+        failing = list(self.ACC_ID_FAILING)
+        others = ["garbage", "header", "midframe"] + (["req-noread"] if role == "outstation" else [])
+        # a good peer waits for the silent peers in front of it to time out one slot after the other (max_tasks = 1:
+        # one after the other); at most 3 silent peers are outstanding at any time
+        limit = 5000
+        ops, seq = [], rng.below(16)
+        goods = bads = 0
+        outstanding = 0
+
+        def good():
+            nonlocal seq, goods, outstanding
+            ops.append(self.accept_good_op(role, seq, limit))
+            seq = (seq + 1) & 15
+            goods += 1
+            outstanding = 0
+
+        if rng.chance(1, 2):
+            good()
+        left = id_failures
+        interleave = rng.choice([0, 0, 1]) if id_failures > 4 else rng.choice([0, 1])
+        while left > 0:
+            batch = min(left, rng.choice([1, 2, 3, 5, 16, left]))
+            for _ in range(batch):
+                kind = rng.choice(failing)
+                if kind in ("silent", "short-silent") and outstanding >= 3:
+                    kind = rng.choice(["none", "short", "hdr9"])
+                if kind in ("silent", "short-silent"):
+                    outstanding += 1
+                ops.append(self.accept_bad_op(rng, role, kind, idto))
+                bads += 1
+                left -= 1
+                if rng.chance(1, 3):
+                    ops.append(self.accept_bad_op(rng, role, rng.choice(others), idto))
+                    bads += 1
+            if left > 0 and interleave and goods < 2:
+                good()
+            elif rng.chance(1, 3):
+                ops.append(("wait", rng.choice([1, 20, idto + 50])))
+        if rng.chance(1, 2):
+            ops.append(("wait", rng.choice([0, 50, idto + 50])))
+        good()
+        good()
+        kind = "%s-%s" % (role, ("linkid" if linkid else "plain") if role == "master" else "server")
+        meta = {"engine": "accept", "kind": kind, "impl_only": True, "role": role, "max_tasks": mt if counted else None,
+                "id_failures": id_failures if counted else None, "relation": relation if counted else None,
+                "good_peers": goods, "bad_peers": bads,
+                "why_impl_only": "no Coq model of the TCP accept loops: the oracle clause accept-wedged is checked directly on the trace"}
+        return Case(sid, script_text(sid, "accept", cfg, ops), meta)
+
+    def cases_accept(self, rng, tier):
+        out = []
+        plan = []
+        # master server with link identification: failures below, at, above the slots and past twice the slots
+        for mt in (1, 2, 16):
+            for k, rel in ((mt - 1, "below"), (mt, "at"), (mt + 1, "above"), (2 * mt + 1, "above-twice")):
+                if k > 0:
+                    plan.append(("master", 1, mt, k, rel))
+        plan += [("master", 0, 16, 3, "-"), ("master", 0, 16, 20, "-"),
+                 ("outstation", 0, 16, 2, "-"), ("outstation", 0, 16, 9, "-"), ("outstation", 0, 16, 33, "-")]
+        if tier != "quick":
+            for _ in range(1500):
+                role = rng.choice(["master", "master", "master", "outstation"])
+                linkid = 1 if role == "master" and rng.chance(3, 4) else 0
+                mt = rng.choice([1, 2, 3, 4, 16, 16])
+                k = rng.choice([max(1, mt - 1), mt, mt + 1, 2 * mt, 2 * mt + 1, 3 * mt + 2, rng.range(1, 40)])
+                plan.append((role, linkid, mt, k, "below" if k < mt else "at" if k == mt else "above"))
+        for i, (role, linkid, mt, k, rel) in enumerate(plan):
+            out.append(self.accept_script(rng, "c01_t_%d" % i, role, linkid, mt, k, rel))
+        return out
+
+    @staticmethod
+    def accept_one_frame(hexframe):
+        """(ctrl, dest, src, payload) when the octets are exactly one intact link frame (independent decoder of dnp.py)"""
+        try:
+            b = bytes.fromhex(hexframe)
+        except ValueError:
+            return None
+        fs = dnp.frames_present(b)
+        if len(fs) >= 1 and dnp.link_frame(*fs[0]) == b:
+            return fs[0]
+        return None
+
+    def oracle_accept(self, case, impl):
+        m = case.meta
+        fails = []
+        st = {"good": 0, "served": 0, "bad": 0}
+        for l in impl:
+            if l.startswith("panic"):
+                fails.append(("no-panic", "a thread panicked while peers connected to the TCP server (%s): %s" % (m.get("kind"), l[:300])))
+            elif l.startswith(("harness-died", "missing", "unknown-engine", "setup-error", "script-hard-timeout", "bad-op")):
+                fails.append(("accept-harness", "pairtest (engine accept) did not run the script: " + l[:300]))
+        ops = [l.split() for l in case.script.strip().split("\n")[1:-1]]
+        outcome, cur = {}, None
+        for l in impl:
+            w = l.split()
+            if w[:1] == ["op"] and len(w) == 2 and w[1].isdigit():
+                cur = int(w[1])
+            elif w[:1] in (["good"], ["bad"]) and cur is not None:
+                outcome[cur] = w
+        role = "outstation" if " role=outstation" in case.script.split("\n", 1)[0] else "master"
+        done_bad = 0
+        for n, op in enumerate(ops):
+            if op[0] == "bad":
+                st["bad"] += 1
+                if outcome.get(n, [])[2:3] == ["sent"]:
+                    done_bad += 1
+                continue
+            if op[0] != "good":
+                continue
+            st["good"] += 1
+            got = outcome.get(n)
+            before = "after %d hostile peers (%d of them never sent a complete link header%s)" % (
+                sum(1 for o in ops[:n] if o[0] == "bad"), sum(1 for o in ops[:n] if o[0] == "bad" and o[1] in self.ACC_ID_FAILING),
+                "; max_tasks = %s" % m.get("max_tasks") if m.get("max_tasks") else "")
+            if fails and got is None:
+                continue
+            if got is None or got[1] != "served":
+                fails.append(("accept-wedged", "%s: a well-formed peer (op %d) was NOT served %s: %s"
+                              % (m.get("kind"), n, before, " ".join(got)[:200] if got else "no outcome line")))
+                continue
+            frames = [self.accept_one_frame(h) for h in got[2].split(",")] if len(got) >= 3 else []
+            ok = False
+            if any(f is None for f in frames):
+                pass
+            elif role == "master":
+                acks = [f for f in frames if f[0] == 0x80 and f[1] == self.ACC_OUT and f[2] == self.ACC_MASTER and f[3] == b""]
+                reqs = [f for f in frames if f[0] == 0xC4 and f[1] == self.ACC_OUT and f[2] == self.ACC_MASTER and len(f[3]) >= 3
+                        and f[3][0] & 0xC0 == 0xC0 and f[3][1] & 0xF0 == 0xC0 and f[3][2] == 0x01]
+                ok = len(frames) == 2 and len(acks) == 1 and len(reqs) == 1
+            else:
+                want = dnp.frames_present(bytes.fromhex(op[1]))
+                seq = want[0][3][1] & 15 if want else -1          # application control octet of the request
+                ok = (len(frames) == 1 and frames[0][0] == 0x44 and frames[0][1] == self.ACC_MASTER and frames[0][2] == self.ACC_OUT
+                      and len(frames[0][3]) >= 5 and frames[0][3][0] & 0xC0 == 0xC0 and frames[0][3][1] & 0xDF == 0xC0 | seq
+                      and frames[0][3][2] == 0x81)
+            if ok:
+                st["served"] += 1
+            else:
+                fails.append(("accept-reply", "%s: the well-formed peer (op %d) %s received something else than %s: %s"
+                              % (m.get("kind"), n, before,
+                                 "an ACK and the first READ of the association" if role == "master" else "the response to its READ (same sequence number)",
+                                 got[2][:200] if len(got) >= 3 else "-")))
+        st["bad_done"] = done_bad
+        m["_accept_stats"] = st
+        return fails[:6]
+
+    def accept_totals(self, cases, impl):
+        tot = {"scripts": 0, "good_peers": 0, "good_peers_served": 0, "hostile_peers": 0, "by_kind": {},
+               "master_linkid_by_relation_to_max_tasks": {}}
+        for c in cases:
+            self.oracle_accept(c, impl.get(c.sid, ["missing"]))
+            st = c.meta.pop("_accept_stats", {"good": 0, "served": 0, "bad": 0})
+            tot["scripts"] += 1
+            tot["good_peers"] += st["good"]
+            tot["good_peers_served"] += st["served"]
+            tot["hostile_peers"] += st["bad"]
+            tot["by_kind"][c.meta.get("kind", "?")] = tot["by_kind"].get(c.meta.get("kind", "?"), 0) + 1
+            if c.meta.get("relation"):
+                key = "max_tasks=%s/%s" % (c.meta.get("max_tasks"), c.meta["relation"])
+                tot["master_linkid_by_relation_to_max_tasks"][key] = tot["master_linkid_by_relation_to_max_tasks"].get(key, 0) + 1
+        return tot
+
+    def coverage_extra(self):
+        a = dict(getattr(self, "accept_coverage", None) or {"scripts": 0, "note": "no accept script in this run"})
+        a["what"] = ("family accept: real loopback TCP against the connection-accepting code (master TCP server with / without link "
+                     "identification, outstation TCP server) through /verif/pairtest; implementation only (no model), oracle clauses "
+                     "accept-wedged (every well-formed peer is served), accept-reply (with the right frames), no-panic")
+        return {"accept_family": a}
+
     # ---- all together ---------------------------------------------------------------------------------------
     def cases(self, rng, tier):
         quick = tier == "quick"
@@ -832,6 +1141,7 @@ class C01(ost.OutstationProp):
         out += self.cases_outstation(rng, 320 if quick else 8000, huge=4 if quick else 120)
         out += self.cases_app(rng, 100 if quick else 3000)
         out += self.cases_master(rng, 120 if quick else 3000)
+        out += self.cases_accept(rng, tier)         # last: the random stream of the other families is unchanged
         return out
 
     def oracle(self, case, impl):
@@ -842,6 +1152,10 @@ class C01(ost.OutstationProp):
             return self.oracle_outstation(case, impl)
         if eng == "master":
             return self.oracle_master(case, impl)
+        if eng == "accept" or accept_engine(case):
+            fails = self.oracle_accept(case, impl)
+            case.meta.pop("_accept_stats", None)
+            return fails
         fails = []
         for l in impl:
             if l.startswith("panic") or l.startswith("harness-died") or l == "missing":
